@@ -200,6 +200,20 @@ impl Check for C20 {
             ctx.eval();
             viol(ctx, "preserved_and_trashed", n.to_string(), json!({"register": n}));
         }
+        // ... also through the query interface: no named register is reported both preserved and trashed, and
+        // the answers agree with the published sets
+        for (role, s) in &named {
+            let (p, t) = (cc.is_preserved(s), cc.is_trashed(s));
+            ctx.eval();
+            if p == Some(true) && t == Some(true) {
+                viol(ctx, "is_preserved_and_is_trashed", s.name().to_string(), json!({"register": format!("{}", s), "role": role}));
+            }
+            let in_p = cc.preserved_registers().contains(s);
+            let in_t = cc.trashed_registers().contains(s);
+            if (p == Some(true)) != in_p || (t == Some(true)) != in_t {
+                viol(ctx, "query_disagrees_with_register_sets", s.name().to_string(), json!({"register": format!("{}", s), "is_preserved": format!("{:?}", p), "is_trashed": format!("{:?}", t), "in_preserved": in_p, "in_trashed": in_t}));
+            }
+        }
         // ---- (c) the stack pointer is preserved
         let sp = arch.stack_pointer();
         ctx.eval();
